@@ -33,6 +33,7 @@ type Meta struct {
 	Reach                  []string
 	Validate               int
 	TimeoutS               int
+	Spin                   string // assertion id under which an unwinding failure is reported as a non-progress violation
 }
 
 type Rewrite struct {
@@ -186,6 +187,8 @@ func parseHarnessFile(g *Group, pkg, file string) error {
 						m.Validate, _ = strconv.Atoi(v)
 					case "timeout":
 						m.TimeoutS, _ = strconv.Atoi(v)
+					case "spin":
+						m.Spin = v
 					default:
 						return fmt.Errorf("%s: unknown harness option %q", file, k)
 					}
